@@ -58,7 +58,9 @@ def plan (c : Cfg) (info : Info) : Plan :=
   let f3 := if hashUnknown ∧ total > 0 then
       let tail := if c.tail = 0 then 1 else c.tail
       let minForce := if total > tail then total - tail else 0
-      if f2 > minForce then minForce else f2
+      let f := if f2 > minForce then minForce else f2
+      -- the last recorded chunk could not be hashed: it is sent again (fix 85dab2f)
+      if v < total ∧ f > v then v else f
     else f2
   { forceFrom := f3, verifyNeeded }
 
